@@ -59,9 +59,18 @@ def main():
         meta["commands"].append({"cmd": " ".join(test_cmd) + "   # clean tree", "rc": rc0, "tail": out0[-600:]})
         a = subprocess.run(["git", "-C", wt, "apply", patch], capture_output=True, text=True)
         meta["commands"].append({"cmd": "git apply patch.diff", "rc": a.returncode, "tail": a.stderr[-300:]})
+        rebased = None
         if a.returncode != 0:
-            print(seed_id, "PATCH DOES NOT APPLY")
-            return 1
+            # the fix commits made in /repo after the seed was written may have moved its context: three-way merge
+            a3 = subprocess.run(["git", "-C", wt, "apply", "--3way", patch], capture_output=True, text=True)
+            conflict = subprocess.run(["git", "-C", wt, "diff", "--name-only", "--diff-filter=U"], capture_output=True, text=True).stdout.strip()
+            meta["commands"].append({"cmd": "git apply --3way patch.diff", "rc": a3.returncode, "tail": a3.stderr[-300:]})
+            if a3.returncode != 0 or conflict:
+                print(seed_id, "PATCH DOES NOT APPLY")
+                return 1
+            subprocess.run(["git", "-C", wt, "reset", "-q"], capture_output=True)
+            rebased = subprocess.run(["git", "-C", wt, "diff", "HEAD", "--", ".", ":(exclude)*/tests/seed_m*.rs"], capture_output=True, text=True).stdout
+            meta["patch_rebased_on"] = subprocess.run(["git", "-C", "/repo", "rev-parse", "--short", "HEAD"], capture_output=True, text=True).stdout.strip()
         rc1, out1 = sh(test_cmd, wt, env)
         meta["commands"].append({"cmd": " ".join(test_cmd) + "   # with patch", "rc": rc1, "tail": out1[-900:]})
         os.rename(os.path.join(wt, rel), os.path.join(base, "demo.aside"))
@@ -92,7 +101,12 @@ def main():
         meta["detected_by_own_property"] = prop in det and det[prop]["rc"] == 1
         out_dir = os.path.join(VERIF, "seeded", seed_id)
         os.makedirs(out_dir, exist_ok=True)
-        shutil.copy(patch, os.path.join(out_dir, "patch.diff"))
+        if rebased:
+            with open(os.path.join(out_dir, "patch.diff"), "w") as f:
+                f.write(rebased)
+            shutil.copy(patch, os.path.join(out_dir, "patch.diff.orig"))
+        else:
+            shutil.copy(patch, os.path.join(out_dir, "patch.diff"))
         shutil.copy(demo, os.path.join(out_dir, "demo.rs"))
         if os.path.exists(md):
             meta["author_notes"] = open(md).read()
